@@ -547,9 +547,49 @@ def q5(e: Engine, rep: Report):
                       'per removed entry %s _dequeue spawns' % sorted(counts),
                       loc=lp.loc(), reason='one _dequeue per element of the '
                       'removed list')
+            # one statement that takes the removed part and names the kept
+            # part: `taken, kept = self.queued[:n], self.queued[n:]` /
+            # `taken, kept = self.queued, []` (possibly one per branch)
+            def pair_stmt(s2):
+                a = s2.ast
+                if not (isinstance(a, ast.Assign) and len(a.targets) == 1 and
+                        isinstance(a.targets[0], ast.Tuple) and
+                        len(a.targets[0].elts) == 2 and
+                        isinstance(a.value, ast.Tuple) and
+                        len(a.value.elts) == 2):
+                    return None
+                A, B = a.value.elts
+                if path_of(A, s2.frame) == 'self.queued' and \
+                        isinstance(B, ast.List) and not B.elts:
+                    return a.targets[0].elts
+                if isinstance(A, ast.Subscript) and \
+                        isinstance(B, ast.Subscript) and \
+                        path_of(A.value, s2.frame) == 'self.queued' and \
+                        path_of(B.value, s2.frame) == 'self.queued' and \
+                        isinstance(A.slice, ast.Slice) and \
+                        isinstance(B.slice, ast.Slice) and \
+                        A.slice.lower is None and B.slice.upper is None and \
+                        A.slice.upper is not None and \
+                        B.slice.lower is not None and \
+                        ast.unparse(A.slice.upper) == \
+                        ast.unparse(B.slice.lower):
+                    return a.targets[0].elts
+                return None
+            pairs = [s2 for s2 in g.of_kind('stmt') if pair_stmt(s2)]
             # the kept part is the complement of the removed part
             for w in ws:
                 v = _queued_value(w)
+                if isinstance(v, ast.Name) and pairs:
+                    rd = common.reaching_defs(g, w, path_of(v, w.frame))
+                    if rd and all(d is not None and d in pairs and
+                                  isinstance(pair_stmt(d)[1], ast.Name) and
+                                  pair_stmt(d)[1].id == v.id for d in rd):
+                        rep.evaluations += 1
+                        rep.ok('Q5', where, 'kept entries are the complement '
+                               'of the dispatched ones', loc=w.loc(),
+                               reason='taken and kept part come from one '
+                               'complementary assignment')
+                        continue
                 if isinstance(v, ast.Name):
                     up = unpacked(v, w.frame)
                     if up is not None and len(up) == 1:
@@ -581,7 +621,7 @@ def q5(e: Engine, rep: Report):
                           loc=w.loc(), reason=what)
             # snapshot taken before the rewrite, with no yield in between
             before = dataflow.must_events_before(
-                g, lambda n: ['snap'] if n is defn else [])
+                g, lambda n: ['snap'] if n is defn or n in pairs else [])
             for w in ws:
                 rep.check('snap' in (before.get(w.id) or ()) or w is defn,
                           'Q5', where, 'removed entries are captured '
